@@ -36,9 +36,39 @@ def setup():
     return 0
 
 
+def coqchk():
+    """Independent re-check of every compiled file of the development with coqchk; prints the axioms it relies on.
+    Run by hand (tens of minutes); the result is committed as evidence/coqchk.txt."""
+    t0 = time.time()
+    with BuildLock():
+        vlib.regen()
+        vlib.ensure_makefile()
+        rc, o, e = vlib.sh(["make", "-j16"], cwd=vlib.COQ, timeout=3000)
+        if rc != 0:
+            print((o + e)[-2000:])
+            return 1
+        mods = []
+        for l in open(os.path.join(vlib.COQ, "_CoqProject")):
+            l = l.strip()
+            if l.endswith(".v"):
+                mods.append("Verif." + os.path.basename(l)[:-2])
+        q = []
+        for d in ("Base", "Gen", "Model", "Proofs", "Properties", "Run"):
+            q += ["-Q", d, "Verif"]
+        rc, o, e = vlib.sh(["coqchk", "-silent", "-o"] + q + mods, cwd=vlib.COQ, timeout=7200)
+    out = os.path.join(vlib.ROOT, "evidence", "coqchk.txt")
+    with open(out, "w") as f:
+        f.write("coqchk -silent -o over %d modules of /verif/coq, %s, rc=%d, %.0f s\n\n" % (len(mods), time.strftime("%Y-%m-%d %H:%M:%S"), rc, time.time() - t0))
+        f.write(o[-20000:] + e[-5000:])
+    print(open(out).read()[-3000:])
+    return 0 if rc == 0 else 1
+
+
 def main(argv):
     if argv and argv[0] == "--setup":
         return setup()
+    if argv and argv[0] == "--coqchk":
+        return coqchk()
     ap = argparse.ArgumentParser()
     ap.add_argument("prop")
     ap.add_argument("--tier", default=os.environ.get("VERIF_TIER", "quick"))
